@@ -35,6 +35,25 @@ Theorem C02_accounted_reloads : forall P S t vt sh, Accounted P S -> In t (sl_to
   Assign (reload_acts t) (sh_reloads sh).
 Proof. intros P S t vt sh HA Hin Hs. exact (acc_reloads P S HA t Hin vt sh Hs). Qed.
 
+(* breaks: likewise, the break activities of a tour can be assigned to DISTINCT optional breaks defined for the tour's vehicle
+   shift (a place of the break with the reported service time and, when the place has one, the reported location; the break's
+   time - relative to the tour's departure for an offset break - explains the reported start) iff the matcher says so *)
+Theorem C02_breaks_distinct_defined : forall P t, breaks_ok P t = true <-> BreaksDefined P t.
+Proof. exact breaks_ok_iff. Qed.
+
+Theorem C02_accounted_breaks : forall P S t vt sh, Accounted P S -> In t (sl_tours S) -> shift_of P t = Some (vt, sh) ->
+  GAssign (break_fits (tour_dep (flat_tour t))) (break_acts t) (sh_breaks sh).
+Proof. intros P S t vt sh HA Hin Hs. exact (acc_breaks P S HA t Hin vt sh Hs). Qed.
+
+(* so a tour never takes more breaks than its shift defines *)
+Theorem C02_breaks_at_most_defined : forall P S t vt sh, Accounted P S -> In t (sl_tours S) -> shift_of P t = Some (vt, sh) ->
+  (length (break_acts t) <= length (sh_breaks sh))%nat.
+Proof. intros P S t vt sh HA Hin Hs. eapply GAssign_length. exact (acc_breaks P S HA t Hin vt sh Hs). Qed.
+
+(* non-vacuity: a document with a break activity is accounted *)
+Theorem C02_nonvacuous_break : Accounted ex_Pb ex_Sb /\ break_acts (hd ex_tour (sl_tours ex_Sb)) <> [].
+Proof. exact ex_break_accounted. Qed.
+
 (* an accounted document partitions the plan: exactly one tour and not unassigned, or no tour and exactly once unassigned *)
 Theorem C02_accounted_partition : forall P S job, Accounted P S -> In job (pr_jobs P) ->
   (length (tours_with (pj_id job) S) = 1%nat /\ length (unassigned_of (pj_id job) S) = 0%nat)
